@@ -141,6 +141,10 @@ def run(beh, variant=0):
             ty.field_map["x"].resolver = res_x
         rt = BlockingRuntime() if setup == "no-stream-runtime" else AsyncIORuntime(loop=loop, execute_blocking_functions_in_thread=False)
         text = QUERIES[qname]
+        if shared_root:
+            # on the shared root type the query selects the very field that HAS a subscription resolver: what refuses it is the
+            # operation's keyword (also when it is left out)
+            text = "query { ev { a b x } }" if variant % 4 == 1 else "{ ev { a b x } }"
         if split:
             text = ("subscription { ev { a } ev { b x } }" if variant % 8 == 3 else "subscription { ev { a } ...R }  fragment R on Subscription { ev { b x } }")
         if rkey != "ev":
